@@ -432,10 +432,10 @@ def check(ctx):
     # ---- failing-input search for process-level determinism (NOT part of the proof) ----
     rng = ctx.rng
     fixed = FIXED_SOURCES if ctx.thorough else FIXED_SOURCES[:3]     # quick: known, min-mix, dag-order
-    sources = list(fixed) + [(f"gen{i}", gen_source(rng)) for i in range(10 if ctx.thorough else 1)]
+    sources = list(fixed) + [(f"gen{i}", gen_source(rng)) for i in range(6 if ctx.thorough else 1)]
     configs = THOROUGH_CONFIGS if ctx.thorough else QUICK_CONFIGS
     if ctx.thorough:
-        seeds = [(hs, v) for hs in range(5) for v in ("fresh", "after-unrelated")]
+        seeds = [(hs, v) for hs in range(4) for v in ("fresh", "after-unrelated")]
     else:   # 5 processes per source: two seeds fresh, the first seed again after other work, two more seeds
         seeds = [(0, "fresh"), (1, "fresh"), (0, "after-unrelated"), (2, "after-unrelated"), (3, "fresh")]
     res = determinism_search(ctx, sources, configs, seeds)
